@@ -128,6 +128,14 @@ def marginals_of(case, vals):
 
 
 def real_worker(case):
+    """never raises (see c05.real_worker)"""
+    try:
+        return _real_worker(case)
+    except BaseException as e:  # noqa: BLE001
+        return {"build": {"err": ["worker:" + type(e).__name__]}, "evals": []}
+
+
+def _real_worker(case):
     import warnings
 
     warnings.filterwarnings("ignore")
